@@ -1,7 +1,7 @@
 #!/bin/bash
 # run every claimed check at one tier; print a one-line summary per check
 tier=${1:-quick}
-cd "$(dirname "$0")/.."
+cd "$(dirname "$0")/.."; mkdir -p out
 for p in C01 C02 C03 C04 C05 C06 C07 C15 C16 C17 C18 C19; do
   s=$(date +%s)
   ./check $p --tier $tier > out/runall-$p.log 2>&1
